@@ -1,0 +1,42 @@
+//go:build verif
+
+package ship
+
+import (
+	"time"
+
+	"github.com/enbility/ship-go/model"
+)
+
+// Read-only snapshot of a connection for the verification harness.
+type VerifSnapshot struct {
+	State        model.ShipMessageExchangeState
+	TimerRunning bool
+	TimerType    uint
+	BufferLen    int
+	ReaderSet    bool
+}
+
+func (c *ShipConnection) VerifSnapshot() VerifSnapshot {
+	c.bufferMux.Lock()
+	bufferLen := len(c.spineBuffer)
+	c.bufferMux.Unlock()
+
+	return VerifSnapshot{
+		State:        c.getState(),
+		TimerRunning: c.getHandshakeTimerRunning(),
+		TimerType:    uint(c.getHandshakeTimerType()),
+		BufferLen:    bufferLen,
+		ReaderSet:    c.dataReader != nil,
+	}
+}
+
+// arm the handshake timer with a chosen duration
+func (c *ShipConnection) VerifArmTimer(timerType uint, duration time.Duration) {
+	c.setHandshakeTimer(timeoutTimerType(timerType), duration)
+}
+
+// stop the handshake timer
+func (c *ShipConnection) VerifStopTimer() {
+	c.stopHandshakeTimer()
+}
